@@ -103,6 +103,9 @@ WRAPPERS = [
 WRAP_NAMES = sorted({w[0] for w in WRAPPERS})
 PLAIN = [["x1 = v + 1"], ["x2 = [v, 2]"], ["x3 = {'a': v}"], ["pass"], ["x4 = str(v)"], ["x5 = (v,", "      2)"], ["x6 = len([v])"]]
 PRELUDE = ["class CM:", "    def __enter__(self):", "        return self", "    def __exit__(self, *a):", "        return False"]
+# how the statement that waits is written (wait entries): the exception of the expression is raised at the line of the call
+WAIT_FORMS = ["assign", "call-spanning-lines", "call-arg", "expr-stmt"]
+WAIT_ENTRIES = ("wait-expr", "wait-filter-expr")
 LINK_KINDS = ["func", "method", "nested", "wrapper", "classbody", "lambda", "samename", "import"]
 
 
@@ -144,7 +147,8 @@ def gen_spec(r, pid, masked=False, entry="load", depth=None):
             k = "method"
         links.append({"kind": k, "other_file": r.random() < 0.3 and k in ("func", "method", "wrapper", "samename"),
                       "pre": r.choice([0, 1, 1, 2]), "post": r.choice([0, 1, 1, 2]),
-                      "try": r.choice(["-", "-", "-", "-", "reraise", "from", "ctx", "none"]) if not masked else r.choice(["-", "-", "-", "reraise", "none"])})
+                      "try": r.choice(["-", "-", "-", "-", "reraise", "from", "ctx", "none", "swallow"]) if not masked
+                      else r.choice(["-", "-", "-", "reraise", "none", "swallow"])})
     leaf_lambda = (not masked) and r.random() < 0.12
     exc_style = r.choice(["expr", "expr", "raise", "raise", "user", "fresh-cause", "assert", "import"])
     if masked and exc_style == "fresh-cause":
@@ -162,7 +166,8 @@ def gen_spec(r, pid, masked=False, entry="load", depth=None):
     else:
         exc = "ModuleNotFoundError"
     return {"pid": pid, "seed": r.randrange(1 << 30), "entry": entry, "entry_pre": r.choice([0, 1, 2]), "entry_post": r.choice([0, 1]),
-            "entry_try": r.choice(["-", "-", "-", "from", "ctx", "reraise", "none"]) if not masked else r.choice(["-", "-", "none"]),
+            "entry_try": r.choice(["-", "-", "-", "from", "ctx", "reraise", "none", "swallow"]) if not masked else r.choice(["-", "-", "none", "swallow"]),
+            "wait_form": r.choice(WAIT_FORMS),
             "links": links, "leaf_lambda": leaf_lambda, "exc_style": exc_style, "exc": exc, "masked": masked}
 
 
@@ -271,12 +276,16 @@ class Program:
         n = len(links)
         # pre-create units in chain order (ids follow the chain), then render leaf-first
         chain = []      # per link: dict(kind, units..., callexpr from the caller's point of view)
-        entry_kind = "module" if sp["entry"] in ("load",) else ("expr" if sp["entry"].endswith("expr") else "func")
+        waits = sp["entry"] in WAIT_ENTRIES
+        entry_kind = "module" if sp["entry"] in ("load",) else ("func" if waits else "expr" if sp["entry"].endswith("expr") else "func")
         entry_name = ctx_of(self.main_rel) if entry_kind == "module" else ("entry_%s" % self.pid if entry_kind == "func" else "<expr>")
         self.entry_unit = self.unit(entry_kind, entry_name, self.main_rel)
+        # wait entries: the entry function waits in task.wait_until; the expression it waits for is a unit of its own that
+        # calls the chain (its exception is delivered to the waiting function at the wait statement)
+        self.wait_unit = self.unit("waitexpr", "<expr>", self.main_rel) if waits else None
         below_import = False
         for i, lk in enumerate(links):
-            if i == 0 and entry_kind == "expr" and lk["kind"] not in ("func", "method", "wrapper"):
+            if i == 0 and (entry_kind == "expr" or waits) and lk["kind"] not in ("func", "method", "wrapper"):
                 lk = dict(lk, kind="func")
                 links[i] = lk
             rel = self.mod_rel if (lk["other_file"] or below_import) else self.main_rel
@@ -337,7 +346,10 @@ class Program:
                 self._render_module_link(info, callee, deferred)
                 continue
             self._render_def(info, callee, deferred)
-        self._render_entry(chain[0] if chain else None, deferred)
+        first = chain[0] if chain else None
+        if waits:
+            first = {"kind": "waitexpr", "u": self.wait_unit, "target": first, "i": -1, "rel": self.main_rel, "lk": {}}
+        self._render_entry(first, deferred)
         if self.fault is None:
             if self.fault_pos >= 0:
                 raise ValueError("fault position %d out of range (%d slots)" % (self.fault_pos, self.nslots))
@@ -422,6 +434,25 @@ class Program:
             em.emit("class %s:" % cu["name"], ind)
             self._body(em, ind + 1, cu, callee["lk"], self._next(callee), deferred)
             target.append(st)
+        elif k == "waitexpr":
+            cu, tgt = callee["u"], callee["target"]
+            cu["body"].append({"k": "call", "line": 1, "callee": tgt.get("w", tgt["u"])["id"], "cctx": "expr", "wrap": "none"})
+            call = self.call_text(tgt, em.rel)
+            if self.spec["entry"] == "wait-expr":
+                self.wait_expr = "pyscript.c18g_%s == '1' and %s >= 0" % (self.pid, call.replace("(v)", "(int(pyscript.c18_%s))" % self.pid))
+                arg = 'state_trigger="%s"' % self.wait_expr
+            else:
+                self.wait_expr = "%s >= 0" % call
+                arg = 'event_trigger=["ev2_%s", "%s"]' % (self.pid, self.wait_expr)
+            form = self.spec.get("wait_form", "assign")
+            lines = {"assign": ["r = task.wait_until(%s, timeout=600)" % arg],
+                     "expr-stmt": ["task.wait_until(%s, timeout=600)" % arg],
+                     "call-arg": ["r = dict(task.wait_until(timeout=600, %s))" % arg],
+                     "call-spanning-lines": ["r = task.wait_until(", "    %s," % arg, "    timeout=600,", ")"]}[form]
+            st = {"k": "call", "line": em.next_line, "callee": cu["id"], "cctx": "wait:" + form, "wrap": w[0]}
+            for ln in lines:
+                em.emit(ln, ind)
+            target.append(st)
         elif k == "import":
             cu = callee["u"]
             em.emit("if not v:", ind)
@@ -446,6 +477,8 @@ class Program:
                 em.emit("raise RuntimeError('h-%s') from e1" % self.pid, ind + 1)
             elif t == "none":
                 em.emit("raise RuntimeError('h-%s') from None" % self.pid, ind + 1)       # __suppress_context__: the caught one is not printed
+            elif t == "swallow":
+                em.emit("handled = str(e1)", ind + 1)                                      # the script handles its own error: nothing escapes
             else:
                 em.emit("raise RuntimeError('h-%s')" % self.pid, ind + 1)
             body.append(tryst)
@@ -552,7 +585,7 @@ class Program:
 # ------------------------------------------------------------------------------------------------
 # entry points: scaffolding around the entry unit (identical source for both decorator subsystems)
 ENTRIES = ["load", "trigger-func", "trigger-func-state", "service-func", "trigger-expr", "filter-expr", "active-expr",
-           "done-callback", "created-task"]
+           "done-callback", "created-task", "wait-expr", "wait-filter-expr"]
 
 
 def scaffold(spec):
@@ -565,7 +598,9 @@ def scaffold(spec):
     by += ["@service", "def svcb_%s():" % pid, '    vf.rec("bystander-svc", "%s")' % pid,
            '@state_trigger("pyscript.c18b_%s == \'1\'")' % pid, "def stb_%s(**kw):" % pid, '    vf.rec("bystander-st", "%s")' % pid]
     spec["before_entry"] = by
-    if e == "trigger-func":
+    if e in WAIT_ENTRIES:        # an event trigger function that waits (task.wait_until) for a state expression / a filtered event
+        spec.update(decorators=['@event_trigger("ev_%s")' % pid], signature="**kw", entry_prolog=["v = kw['v']"], entry_epilog=[done])
+    elif e == "trigger-func":
         spec.update(decorators=['@event_trigger("ev_%s")' % pid], signature="**kw", entry_prolog=["v = kw['v']"], entry_epilog=[done])
     elif e == "trigger-func-state":
         spec.update(decorators=['@state_trigger("pyscript.c18_%s != \'idle\'")' % pid], signature="**kw",
